@@ -43,6 +43,9 @@ def items(tier, seed):
         heavy = cfg["prefixes"] is None or bool(cfg["networks"])
         for lo, hi in ipc.shards(33, 4 if heavy else 2):
             out.append(Item("C01", "pair_joint", dict(family=4, cfg=cfg, ms=[lo, hi]), budget_s=1200 if tier == "thorough" else 300, obligation="H2-pair-joint-v4"))
+    for cfg in ([dict(prefixes=list(ipc.CLASSES), networks=None, B=8)] if tier == "quick" else [dict(prefixes=list(ipc.CLASSES), networks=None, B=8), dict(prefixes=None, networks=None, B=0)]):
+        for lo, hi in ipc.shards(33, 2 if tier == "quick" else 4):
+            out.append(Item("C01", "pair_joint", dict(family=4, cfg=cfg, ms=[lo, hi], arbitrary_memo_size=True), budget_s=1200 if tier == "thorough" else 300, obligation="H2b-pair-joint-arbitrary-memo-size"))
     if tier == "thorough":
         for b in (0, 8):
             for lo, hi in ipc.shards(129, 16):
@@ -105,8 +108,15 @@ def pair_joint(item, res):
     found = []
     lo, hi = item.params.get("ms", [0, W + 1])
 
+    extra = z3.BitVec("memo_extra", 40)
+
     def h(ex_):
         an = ipc.make(cfg, family)
+        if item.params.get("arbitrary_memo_size"):
+            # the memo may hold any number (up to 10^6, so that a replay can build it) of further entries from an earlier history
+            ex_.assume(z3.ULE(extra, 1000000))
+            an.cache.extra_len = SInt.unsigned(extra)
+            ex_.path_data["md5"] = models.ENV.md5_calls
         # b is arbitrary: exhaustive case split on the number of leading bits it shares with a
         mm = lo + ex_.choice(hi - lo, "shared-prefix")
         b = ipc.related(a, mm, "b_free", W)
@@ -118,7 +128,23 @@ def pair_joint(item, res):
         if m is None:
             res["finals_unsat"] += 1
             return ("ok", oa, ob, b)
-        found.append(_pair_witness(m, cfg, family, a, b, True))
+        wit, rp = _pair_witness(m, cfg, family, a, b, True)
+        if item.params.get("arbitrary_memo_size"):
+            bad = ipc.cpl_violation(a, b, oa, ob, W)
+            lo_, hi_, best = 0, m.eval(extra, model_completion=True).as_long(), m
+            while lo_ < hi_:
+                mid = (lo_ + hi_) // 2
+                m2 = ex_.model(bad, z3.ULE(extra, mid))
+                if m2 is not None:
+                    best, hi_ = m2, m2.eval(extra, model_completion=True).as_long()
+                else:
+                    lo_ = mid + 1
+            wit, rp = _pair_witness(best, cfg, family, a, b, True)
+            for data, dig in models.ENV.md5_calls:
+                rp["args"]["md5_table"].setdefault(ev(best, data), "%032x" % best.eval(dig, model_completion=True).as_long())
+            rp["args"]["pad_to"] = best.eval(extra, model_completion=True).as_long()
+            wit["memo_padding"] = rp["args"]["pad_to"]
+        found.append((wit, rp))
         return ("cex", oa, ob, b)
     paths = ex.explore(h)
     harness.add_stats(res, ex)
@@ -128,11 +154,16 @@ def pair_joint(item, res):
             av = ev(p.model, a)
             bv = ev(p.model, ipc.related(a, lo + (p.decisions[0] if p.decisions else 0), "b_free", W))
             table, rr = ipc.md5_table_for(p.model, cfg, family, [["a", av], ["a", bv]])
+            rargs = dict(family=family, cfg=cfg, a=av, b=bv, shared=True, md5_table=table)
+            if item.params.get("arbitrary_memo_size"):
+                for data, dig in p.extra.get("md5", []):
+                    table.setdefault(ev(p.model, data), "%032x" % p.model.eval(dig, model_completion=True).as_long())
+                rargs["pad_to"] = ev(p.model, extra)
             res["violations"].append(dict(description="anonymize raises %s on a shared instance" % type(p.exc).__name__,
-                                          witness=dict(a=av, b=bv, cfg=ipc.cfg_key(cfg), plain_results=rr["results"]), tags=["anonymize-raises"],
-                                          replay=dict(replayer="ip_pair", args=dict(family=family, cfg=cfg, a=av, b=bv, shared=True, md5_table=table))))
+                                          witness=dict(a=av, b=bv, cfg=ipc.cfg_key(cfg), plain_results=rr["results"], memo_padding=rargs.get("pad_to")), tags=["anonymize-raises"],
+                                          replay=dict(replayer="ip_pair", args=rargs)))
             continue
-        if p.model is not None and nval < 40:
+        if p.model is not None and nval < 40 and not (item.params.get("arbitrary_memo_size") and ev(p.model, extra) > 0):
             av, bv = ev(p.model, a), ev(p.model, p.result[3])
             _, rr = ipc.md5_table_for(p.model, cfg, family, [["a", av], ["a", bv]])
             want = [ev(p.model, p.result[1]), ev(p.model, p.result[2])]
